@@ -285,4 +285,157 @@ example :
   simp only [RefsEarlier, rowRefs]
   decide +kernel
 
+
+/-! ### fuel of the order walk, and what cyclic references mean for the order law -/
+
+/-- **Fuel sufficiency for every table**, also with class entries that refer to themselves or to each other: every expansion
+    adds a new table key to `resolving`, so the walk started by `_order_keys` (fuel = number of keys + 1) is the walk with any
+    larger fuel — the fuel bound is never reached and the model computes what the unbounded recursion computes. -/
+theorem order_fuel (t : Table) (fm : Option Str) (n : Nat) (hn : t.items.length + 1 ≤ n) (f : Forest) (o : List Str) :
+    orderFuel t.entryAttrs fm n f o [] = orderFuel t.entryAttrs fm (t.items.length + 1) f o [] :=
+  orderFuel_sufficient t fm n hn f o
+
+/-- **An importable order is a rank.** If rows `d` can be imported in the listed order into a table holding `avail`, then the
+    keys of `d` carry a rank that strictly decreases along every reference between them. So for rows with cyclic references
+    NO order is importable — whatever `_order_keys` does; the acyclicity hypothesis of `order` is necessary, not a weakness of
+    the algorithm. -/
+theorem importable_acyclic (d : List (Str × Row)) (avail : List Str) (ha : RefsAvail avail d)
+    (hd : ∀ kr ∈ d, kr.1 ∉ avail) (hn : (d.map Prod.fst).Nodup) :
+    ∃ rank : Str → Nat, ∀ kr ∈ d, ∀ r ∈ rowRefs kr.2, r ∈ d.map Prod.fst → rank r < rank kr.1 :=
+  importable_rank d avail ha hd hn
+
+/-- two rows that refer to each other cannot be imported in any order -/
+theorem cyclic_unimportable (d : List (Str × Row)) (avail : List Str) (k1 k2 : Str) (r1 r2 : Row)
+    (h1 : (k1, r1) ∈ d) (h2 : (k2, r2) ∈ d) (h12 : k2 ∈ rowRefs r1) (h21 : k1 ∈ rowRefs r2)
+    (hd : ∀ kr ∈ d, kr.1 ∉ avail) (hn : (d.map Prod.fst).Nodup) : ¬ RefsAvail avail d :=
+  mutual_refs_unimportable d avail k1 k2 r1 r2 h1 h2 h12 h21 hd hn
+
+/-- non-vacuity: the two rows of `Ex.cyclic` refer to each other; both listings fail -/
+example :
+    let rT : Row := .symbol Ex.kT [([0], Ex.kG)]
+    let rG : Row := .symbol Ex.kG [([0], Ex.kT)]
+    (decide (RefsAvail [] [(Ex.kT, rT), (Ex.kG, rG)]) || decide (RefsAvail [] [(Ex.kG, rG), (Ex.kT, rT)])) = false := by
+  decide +kernel
+
+/-! ### `deserialize` writes only into objects it created itself -/
+
+/-- `_deserialize_attrs` on a prefix-closed dict (every exported dict is one) never walks into an attribute object of a table
+    entry and so never extends one in place: the model's domain limit `out-of-model` is unreachable for it. -/
+theorem rebuild_isolated (look : Lookup) (data : Flat) (hp : PrefixClosed data) : rebuild look data ≠ .error .sharedEntry :=
+  rebuild_not_shared look data hp
+
+/-- what `serialize` writes is prefix-closed -/
+theorem export_prefixClosed (f : Forest) : PrefixClosed (expand f) := by
+  rw [SymbolJson.expand_eq_flatten]; exact flatten_prefixClosed f
+
+/-- no row of an export makes `deserialize` touch an attribute object of an existing table entry, whatever the table holds -/
+theorem deserialize_isolated (W : World) (t : Table) (s : Sym) : deserialize W t (serialize W s) ≠ .error .sharedEntry := by
+  have hr := rebuild_not_shared (t.lookup W) (expand s.attrs) (export_prefixClosed s.attrs)
+  have hreb : ∀ (g : List RNode → Sym),
+      (match rebuild (t.lookup W) (expand s.attrs) with
+        | .error e => (Except.error e : Except Err Sym)
+        | .ok rs => .ok (g rs)) ≠ .error .sharedEntry := by
+    intro g
+    cases h : rebuild (t.lookup W) (expand s.attrs) with
+    | error e => simp only; intro hc; cases hc; exact hr h
+    | ok rs => simp
+  unfold serialize
+  by_cases hc : s.isClassSymbol W = true
+  · simp only [hc, if_true, deserialize]
+    by_cases h1 : W.known s.types = true
+    · by_cases h2 : W.isClassDef s.types = true
+      · simp only [h1, h2, Bool.not_true, Bool.false_eq_true, if_false]
+        exact hreb _
+      · simp [h1, h2]
+    · simp [h1]
+  · simp only [hc, if_false, deserialize, Table.get]
+    by_cases h1 : W.known s.node = true
+    · by_cases h2 : W.known s.decl = true
+      · by_cases h3 : W.isDecl s.decl = true
+        · simp only [h1, h2, h3, Bool.not_true, Bool.false_eq_true, if_false]
+          cases dictGet? t.items (s.typesKey W) with
+          | none => simp
+          | some o =>
+            simp only
+            by_cases hv : (s.typesKey W != s.via) = true
+            · simp only [hv, if_true]
+              cases dictGet? t.items s.via with
+              | none => simp
+              | some v => simp only; exact hreb _
+            · simp only [hv, if_false]
+              exact hreb _
+        · simp [h1, h2, h3]
+      · simp [h1, h2]
+    · simp [h1]
+
+example : PrefixClosed [([0], ['a']), ([0, 0], ['b']), ([0, 0, 3], ['c'])] ∧ ¬ PrefixClosed [([0], ['a']), ([0, 0, 0], ['c'])] := by
+  constructor
+  · intro pk hpk hl
+    simp only [List.mem_cons, List.not_mem_nil, or_false] at hpk
+    rcases hpk with rfl | rfl | rfl <;> simp [parent] at hl ⊢
+  · intro h
+    have := h ([0, 0, 0], ['c']) (by simp) (by simp)
+    simp [parent] at this
+
+/-! ### shared objects -/
+
+/-- `seqs.expand` does not look at object identity: an object that sits in several slots is exported once per slot, with
+    its whole sub-forest each time (`expandI` on objects with identity = `expand` on what they show). -/
+theorem expand_shared (f : IForest) : expandI f = expand (eraseL f) := expandI_erase f
+
+/-- `attrs_rt` for DAG-shaped forests: the export duplicates shared sub-forests, the import rebuilds a tree (new objects) that
+    shows the same forest. -/
+theorem attrs_rt_shared (look : Lookup) (f : IForest) (h : GoodL look (eraseL f)) :
+    ∃ rs, rebuild look (expandI f) = .ok rs ∧ obsList rs = eraseL f := by
+  rw [expandI_erase]; exact attrs_rt look (eraseL f) h
+
+/-- regression (seeded mutation): with a visited-set of object ids the second slot of a shared object loses its children,
+    and the import shows `tuple[list, list]` for `tuple[list[int], list[int]]` -/
+theorem visited_counterexample :
+    ∃ (f : IForest) (look : Lookup), GoodL look (eraseL f) ∧ expandVisited f ≠ expandI f ∧
+      ∀ rs, rebuild look (expandVisited f) = .ok rs → obsList rs ≠ eraseL f := by
+  refine ⟨[.mk 1 ['t'] [.mk 2 ['l'] [.mk 3 ['i'] []], .mk 2 ['l'] [.mk 3 ['i'] []]]], fun k => some (k, []), ?_, by decide +kernel, ?_⟩
+  · exact ⟨⟨⟨[], rfl, fun h => absurd h (by decide)⟩,
+      ⟨⟨⟨[], rfl, fun h => absurd h (by decide)⟩, ⟨⟨⟨[], rfl, fun _ => rfl⟩, trivial⟩, trivial⟩⟩,
+       ⟨⟨[], rfl, fun h => absurd h (by decide)⟩, ⟨⟨⟨[], rfl, fun _ => rfl⟩, trivial⟩, trivial⟩⟩, trivial⟩⟩, trivial⟩
+  · intro rs hrs
+    have hb : (match rebuild (fun k => some (k, [])) (expandVisited [.mk 1 ['t'] [.mk 2 ['l'] [.mk 3 ['i'] []], .mk 2 ['l'] [.mk 3 ['i'] []]]]) with
+        | .ok rs => decide (obsList rs ≠ eraseL [.mk 1 ['t'] [.mk 2 ['l'] [.mk 3 ['i'] []], .mk 2 ['l'] [.mk 3 ['i'] []]]])
+        | .error _ => true) = true := by decide +kernel
+    rw [hrs] at hb
+    simpa using hb
+
+/-- **`to_temporary` is isolated, at every nesting depth.** The copy shows the same forest, consists of new objects only, and no
+    sequence of writes into objects of the copy (or into objects created later) changes the table entry. -/
+theorem to_temporary_isolated (a : IAttr) (n : Nat) (h : ∀ i ∈ idsN a, i < n) :
+    eraseN (toTemp a n).1 = eraseN a ∧ (∀ i ∈ idsN (toTemp a n).1, i ∉ idsN a) ∧
+      ∀ ws : List (Nat × Nat × IAttr), (∀ w ∈ ws, w.1 ∈ idsN (toTemp a n).1 ∨ n ≤ w.1) → applyWrites ws a = a := by
+  obtain ⟨h1, _, h3⟩ := toTemp_spec a n
+  refine ⟨h1, ?_, ?_⟩
+  · intro i hi hia
+    have := (h3 i hi).1
+    have := h i hia
+    omega
+  · intro ws hws
+    apply applyWrites_noop
+    intro w hw hwa
+    have := h w.1 hwa
+    rcases hws w hw with h' | h'
+    · have := (h3 w.1 h').1; omega
+    · omega
+
+/-- regression (seeded mutation): a copy that shares every attribute without a type variable among its DIRECT children leaks
+    the write `list[list[list[T]]]`·`0.0.0 := str` into the table entry -/
+theorem shallow_temporary_counterexample :
+    ∃ (isTV : Str → Bool) (a : IAttr) (n : Nat), (∀ i ∈ idsN a, i < n) ∧
+      ∃ target ∈ idsN (toTempShallow isTV a n).1, ∃ j v, setSlot target j v a ≠ a := by
+  refine ⟨fun k => k == ['T'], .mk 0 ['l'] [.mk 1 ['l'] [.mk 2 ['l'] [.mk 3 ['T'] []]]], 10, by decide, 2, by decide +kernel, 0, .mk 9 ['s'] [], by decide +kernel⟩
+
+/-- non-vacuity: the real copy of the same entry has four new objects and the same write leaves the entry alone -/
+example :
+    let a : IAttr := .mk 0 ['l'] [.mk 1 ['l'] [.mk 2 ['l'] [.mk 3 ['T'] []]]]
+    (idsN (toTemp a 10).1 = [10, 11, 12, 13] ∧ setSlot 12 0 (.mk 9 ['s'] []) a = a ∧
+      setSlot 12 0 (.mk 9 ['s'] []) (toTemp a 10).1 = .mk 10 ['l'] [.mk 11 ['l'] [.mk 12 ['l'] [.mk 9 ['s'] []]]]) := by
+  decide +kernel
+
 end Tranp.C14
